@@ -9,7 +9,7 @@ packet, with the specified wire type and repeatability. encode-schema: every pro
 (helpers, hand written put_u8+value, User Properties, Reason String) has an identifier allowed in that
 packet and a field of the specified wire type. id-field: the field an identifier is decoded into is the
 field it is encoded from (decoder's struct literal vs encoder's emission), for every packet type.
-wire-order: for 18 packet types the longest success path of the encoder and of the decoder are reduced to sequences of wire tokens (u8/u16/u32/str/bin/varint/PROPS/loops) with the struct field at each position, and must be equal (same types in the same order, same field where both sides name one) and equal to the layout transcribed from the specification (spec/mqtt_layouts.json). layout-size: the symbolic size/emission equivalence of C09 (every encode writes exactly the fields its
+wire-order: for 18 packet types the longest success path of the encoder and of the decoder are reduced to sequences of wire tokens (u8/u16/u32/str/bin/varint/PROPS/loops) with the struct field at each position, and must be equal (same types in the same order, same field where both sides name one) and equal to the layout transcribed from the specification (spec/mqtt_layouts.json). connect-flags: the CONNECT flag bits equal the specification, the encoder only accumulates bits into one flags value (never re-assigns it) and sets each bit for the field the decoder reads under that bit. layout-size: the symbolic size/emission equivalence of C09 (every encode writes exactly the fields its
 size function counts) and frame exhaustion of C02 (decoders accept a frame only when all of its bytes
 were read) are imported. Equality of concrete values after a round trip is not decided."""
 import os, json
@@ -634,6 +634,7 @@ def run(F, R):
     opt_props_ids(F, R)
     encode_schema(F, R, sf, tables)
     wire_order(F, R, sf)
+    connect_flags(F, R)
     imported(F, R)
     R.assume('spec/*.json are faithful transcriptions of the OASIS tables (hand-checked twice; the only library value outside the per-packet tables is DISCONNECT 0x8C, listed in Table 2-6)')
 
@@ -974,3 +975,111 @@ def wire_order(F, R, sf):
             R.ob('C01.wire-order', '%s|same-field-at-every-position' % name, not bad, '; '.join(bad[:3]), F.bodies[efn].loc(0))
     R.floor('C01.wire-order', 'packet types compared', n, 18)
     R.table('wire_order', table)
+
+
+# ----------------------------------------------------------------------------- CONNECT flags
+
+SPEC_CONNECT_FLAGS = {0x80: 'User Name Flag', 0x40: 'Password Flag', 0x20: 'Will Retain', 0x18: 'Will QoS', 0x04: 'Will Flag', 0x02: 'Clean Start / Clean Session'}
+
+
+def flag_const_values(F, owner):
+    """{const name: value} for the associated constants of a bitflags type (evaluated from their bodies)."""
+    out = {}
+    for p, b in F.bodies.items():
+        if p.startswith(owner + '::') and b.kind.startswith('AssocConst'):
+            ps = [x for x in SymEx(b, F).run() if x.end[0] == 'return']
+            if len(ps) == 1 and ps[0].ret and ps[0].ret[0] == 'call' and ps[0].ret[1].endswith('from_bits_retain') and ps[0].ret[2] and ps[0].ret[2][0][0] == 'const':
+                out[p.split('::')[-1]] = ps[0].ret[2][0][1]
+    return out
+
+
+def const_name(op):
+    c = op_const(op)
+    if c and (c.get('def') or c.get('s')):
+        return str(c.get('def') or c.get('s')).split('::')[-1]
+    return None
+
+
+def guard_fields(b, bi):
+    """Names of the packet fields whose presence / truth decides whether block bi runs."""
+    out = set()
+    for sb in b.dom.get(bi, ()):
+        t = b.blocks[sb]['term']
+        if t['k'] != 'switch' or sb == bi:
+            continue
+        # is bi confined to one edge of this switch?
+        succs = [tb for _, tb in t['targets']] + [t['otherwise']]
+        if sum(1 for x in set(succs) if bi in b.reachable(x)) == len(set(succs)):
+            continue
+        for l in Origin(b, transparent=re.compile(TRANSPARENT_CALLS.pattern[:-2] + r'|is_some|is_none)$')).of_operand(t['discr']):
+            if l[0] == 'arg' and l[2]:
+                out.add([x for x in l[2] if not str(x).isdigit()][-1] if [x for x in l[2] if not str(x).isdigit()] else None)
+        ap = apath(b, t['discr'])
+        if ap:
+            fs = [x for x in ap if not x.startswith('call:') and not x.startswith('as ') and not x.startswith('arg') and not x.isdigit()]
+            if fs:
+                out.add(fs[-1])
+    out.discard(None)
+    return out
+
+
+def connect_flags(F, R):
+    vals = flag_const_values(F, 'types::ConnectFlags')
+    R.ob('C01.connect-flags', 'types::ConnectFlags|bits==specification', set(vals.values()) == set(SPEC_CONNECT_FLAGS), 'flag constants %s, specification %s' % ({k: hex(v) for k, v in vals.items()}, sorted(hex(x) for x in SPEC_CONNECT_FLAGS)))
+    av = flag_const_values(F, 'types::ConnectAckFlags')
+    R.ob('C01.connect-flags', 'types::ConnectAckFlags|SESSION_PRESENT==0x01', sorted(av.values()) == [1], 'flag constants %s' % av)
+    n = 0
+    for ver, efn, dfn in (('v3', 'v3::codec::encode::encode_connect', 'v3::codec::decode::decode_connect_packet'),
+                          ('v5', '<v5::codec::packet::connect::Connect as v5::codec::encode::EncodeLtd>::encode', 'v5::codec::packet::connect::Connect::decode')):
+        eb, db = F.bodies.get(efn), F.bodies.get(dfn)
+        if eb is None or db is None:
+            raise AnchorLost('%s / %s' % (efn, dfn))
+        ors = [(bi, t) for bi, t in eb.calls() if re.search(r'BitOrAssign for types::ConnectFlags>::bitor_assign$|ConnectFlags>::(insert|set)$', callee_name(t) or '')]
+        R.floor('C01.connect-flags', '%s flag accumulations in the CONNECT encoder' % ver, len(ors), 5)
+        # the accumulator: local whose address is passed
+        accs = {root_local(eb, t['args'][0]) for bi, t in ors}
+        accs.discard(None)
+        ok_acc = len(accs) == 1
+        R.ob('C01.connect-flags', '%s|CONNECT encoder|one-flag-accumulator' % ver, ok_acc, 'flag bits are accumulated into %d different locals' % len(accs), eb.loc(ors[0][0]) if ors else None)
+        if ok_acc:
+            acc = list(accs)[0]
+            defs = [d for d in eb.whole_defs(acc) if d[0] in eb.live]
+            plain = [d for d in defs if not (d[2] == 'call' and (callee_name(d[3]) or '').endswith('::empty'))]
+            R.ob('C01.connect-flags', '%s|CONNECT encoder|flags-only-accumulate' % ver, len(defs) == 1 and not plain,
+                 'the flags value is re-assigned after bits were set (%d assignments): bits set earlier (user name / password / will) are lost while the fields are still written' % len(defs), eb.loc(plain[0][0]) if plain else None)
+        enc = {}
+        for bi, t in ors:
+            cn = const_name(t['args'][1]) if len(t['args']) > 1 else None
+            if cn:
+                enc.setdefault(cn, set()).update(guard_fields(eb, bi))
+        dec = {}
+        dbs = [db] + [F.bodies[q] for q in ('v5::codec::packet::connect::decode_last_will',) if ver == 'v5' and q in F.bodies]
+        for xb in dbs:
+            lits = [(bi, s) for bi, j, s in agg_sites(xb, r'packet::(connect::)?(Connect|LastWill)$', None)]
+            contains = [(bi, t) for bi, t in xb.calls() if (callee_name(t) or '').endswith('ConnectFlags>::contains')]
+            for bi, t in contains:
+                cn = const_name(t['args'][1])
+                if not cn:
+                    continue
+                r = call_bool_branch(xb, bi)
+                # (1) the bool itself becomes a field
+                for lb, s in lits:
+                    for name, op in zip(s['rv'].get('names') or [], s['rv']['fields']):
+                        if any(l[0] == 'call' and l[2] == bi for l in Origin(xb).of_operand(op)):
+                            dec.setdefault(cn, set()).add(name)
+                # (2) a field is given a value exactly on the true edge
+                if r and r[0] != 'discr':
+                    sw, tt, ft = r
+                    for lb, s in lits:
+                        for name, op in zip(s['rv'].get('names') or [], s['rv']['fields']):
+                            for l in root_locals_through_calls(xb, op):
+                                for d_ in xb.whole_defs(l):
+                                    if d_[2] == 'assign' and d_[3]['rv']['k'] == 'agg' and d_[3]['rv'].get('variant') == 'Some' and edge_dominates(xb, sw, tt, d_[0]):
+                                        dec.setdefault(cn, set()).add(name)
+        for cn in sorted(set(enc) | set(dec)):
+            n += 1
+            e, d_ = enc.get(cn, set()), dec.get(cn, set())
+            # the encoder's guard may mention the enclosing option as well (will.retain under last_will)
+            ok = bool(d_) and d_ <= e | {x for x in e} and (e - {'last_will'} <= d_ | {'retain', 'qos'} or e <= d_ | {'last_will'})
+            R.ob('C01.connect-flags', '%s|%s|set-for-the-field-it-is-read-for' % (ver, cn), ok, 'encoder sets the bit when %s is present/true, decoder uses it for %s' % (sorted(e) or '?', sorted(d_) or '?'), eb.loc(0))
+    R.floor('C01.connect-flags', 'flag constants compared between CONNECT encoder and decoder', n, 8)
